@@ -68,6 +68,7 @@ PROPS = {
     "C05": {
         "runs": [
             {"harness": "H_C05_match", "reach": ["missing", "equal", "different"], "quick": {"envlen": 5}, "thorough": {"envlen": 6}},
+            {"harness": "H_clean", "params": {"prop": 5}, "reach": ["ci"], "quick": {"count": 1, "n": 0}, "thorough": {"count": 2, "n": 1}},
         ],
         "bounds": {"quick": "CI x Update option x UPDATE_SNAPS (any string of <= 5 bytes) x 5 entry points x entry state",
                    "thorough": "UPDATE_SNAPS any string of <= 6 bytes"},
@@ -124,5 +125,44 @@ PROPS = {
                             "summary: counters in {0,1,2,11}, 0..2 obsolete files and tests, both modes", "thorough": "same"},
         "assumptions": COMMON_ASSUME + ["MatchSnapshot is called with at least one value"],
         "outside": ["concurrent bumps of the counters (schedules)"],
+    },
+    "C07": {
+        "runs": [
+            {"harness": "H_clean", "params": {"prop": 7}, "quick": {"count": 2, "n": 1}, "thorough": {"count": 3, "n": 1, "n0": 1}},
+        ],
+        "bounds": {"quick": "program: TestA (2 calls), TestB (1 call), TestS (1 standalone call), -count 1..2; directory with optional stale ordinal, stale test, "
+                            "stale standalone file, stale multi-entry file, 3 layouts; CI x UPDATE_SNAPS (<= 5 bytes) x sort; one live body symbolic (<= 1 byte)",
+                   "thorough": "-count 1..3, all bodies symbolic (<= 1 byte)"},
+        "assumptions": COMMON_ASSUME + ["flag test.run is empty (no -run filter; filtered runs are C08)"],
+        "outside": ["test names that do not start with `Test` (Benchmark*/Fuzz* satisfy the testingT interface; Clean does not recognise their entries)"],
+    },
+    "C09": {
+        "runs": [
+            {"harness": "H_clean", "params": {"prop": 9}, "reach": ["stale-entries"], "quick": {"count": 2, "n": 1}, "thorough": {"count": 3, "n": 1, "n0": 1}},
+        ],
+        "bounds": {"quick": "same program and directory shapes as C07; all three Clean modes incl. sort requested on an unsorted file with stale entries",
+                   "thorough": "-count 1..3, all bodies symbolic"},
+        "assumptions": COMMON_ASSUME + ["no -run filter, no skipped tests"],
+        "outside": [],
+    },
+    "C08": {
+        "runs": [
+            {"harness": "H_C08_skip", "reach": ["skip-mode", "run-mode"], "quick": {"lit": 2}, "thorough": {"lit": 3}},
+        ],
+        "bounds": {"quick": "package with TestA, TestA/sub, TestAB, TestC, Test1 sharing one snapshot file plus TestG in a second file; every subset skipped through "
+                            "Skip/Skipf/SkipNow, or a -run pattern [^]lit[$] with lit of 1..2 symbolic bytes over {A,B,C,s,t,u,T,e,1}; clean mode",
+                   "thorough": "literal of 1..3 bytes"},
+        "assumptions": COMMON_ASSUME + ["regexp.MatchString is summarised exactly for anchored/unanchored literal patterns; go/parser is summarised by the declared function names of a test file",
+                                        "which tests `go test -run P` selects follows the level-wise reference model in the harness"],
+        "outside": ["-run patterns with alternation, classes or quantifiers", "standalone files and custom Filename/Ext of unselected tests under -run (file-name based lookup of the test source)"],
+    },
+    "C10": {
+        "runs": [
+            {"harness": "H_C10_rewrite", "reach": ["no-op", "rewrite"], "quick": {"frames": 2, "n": 1, "digits": 1}, "thorough": {"frames": 2, "n": 1, "digits": 2}},
+        ],
+        "bounds": {"quick": "files of 1..2 entries with ids Test<a-c> - <1-9> (symbolic letter and digit), bodies of <= 1 arbitrary byte, each entry stale or live, update x sort",
+                   "thorough": "ordinals of 1..2 digits"},
+        "assumptions": COMMON_ASSUME + ["well-formed file: ids pairwise distinct, bodies without a `---` line and without CR at end of line"],
+        "outside": ["bodies with a line that looks like an entry header `[Test... - n]` (Clean reads it as a header: same root cause as known finding K2)"],
     },
 }
